@@ -108,6 +108,30 @@ CHECKS["C20"] = dict(
          "duck-typed unit scope rows.",
     design="4/C20")
 
+CHECKS["C10"] = dict(
+    level="model_checking", engine="X",
+    technique="CrossHair symbolic execution (z3) of the real PathFinder.propagate_taint on every small typed state-flow graph "
+              "built through the real StateFlowGraph/SFGNode/SFGEdge, compared with the least fixpoint of the documented edge rules",
+    text="Kernel-level bounded model checking of taint completeness: for every state-flow graph within the node bound (edge "
+         "presence/kind/position, statement kind and source chosen by the solver) the real propagation taints at least "
+         "every symbol and state in the least fixpoint of the rules of docs 6-2. CONFIRMED = slice exhausted. The question "
+         "whether the semantic phases build a graph that contains the program's flows is the program-level leg and is not "
+         "part of this check.",
+    note="Trusted: CrossHair/z3 (graph shape is an enumerative variable), the 50-line reference fixpoint, disjoint symbol/state ids.",
+    design="4/C10")
+CHECKS["C11"] = dict(
+    level="model_checking", engine="X",
+    technique="CrossHair symbolic execution (z3) of the real propagate_taint (no taint outside the least fixpoint) and of the real "
+              "TaintRuleApplier.get_sink_tag_by_rules over operand positions x rule targets",
+    text="Kernel-level bounded model checking of flow justification: on every state-flow graph within the node bound the real "
+         "propagation taints nothing outside the least fixpoint of the documented rules; for a call sink with operands at "
+         "positions 0..2 (absent/clean/tainted) and every 1-2 element target list over the known keywords, the wildcard, the "
+         "empty and unknown targets, the sink tag equals the union over the designated positions and the call never raises; "
+         "a rule of another operation contributes nothing. CONFIRMED = slice exhausted.",
+    note="Trusted: CrossHair/z3, the reference fixpoint and the position table (written from TAG_KEYWORD's documentation in "
+         "rule_manager.Rule).",
+    design="4/C11")
+
 NOT_APPLICABLE = {
     "C12": "A relation between two whole-pipeline runs on syntactically edited programs: the quantified objects are "
            "program texts and edit sequences; no run-time input, id, flag or history for a solver to range over; "
